@@ -28,11 +28,11 @@ import (
 // The request lattice is finite and enumerated completely.
 
 type c19Case struct {
-	Kind      string `json:"kind"` // rpc | web
-	ServerPw  bool   `json:"server_password"`
-	Cred      string `json:"credential"`
-	Endpoint  string `json:"endpoint"`
-	OAuth     bool   `json:"oauth,omitempty"`
+	Kind     string `json:"kind"` // rpc | web
+	ServerPw bool   `json:"server_password"`
+	Cred     string `json:"credential"`
+	Endpoint string `json:"endpoint"`
+	OAuth    bool   `json:"oauth,omitempty"`
 }
 
 const c19Password = "s3cret"
@@ -395,10 +395,10 @@ func c19CheckWeb(c *fw.Ctx, env *c19WebEnv, cs c19Case) {
 
 func init() {
 	fw.Register(&fw.Prop{
-		ID:        "C19",
-		Level:     "exploration",
-		NoThreads: true,
-		Rule: "the whole request lattice. RPC over real gRPC on 127.0.0.1: server password {unset, set} × client credential {none, wrong, right, proper prefix, right + 1 char} × endpoint {Query (rows), Follow (WAL entries), remote-query handler registration followed by a leader query (query text; forged row injection)}; web via web.Configure on httptest with known hash/block keys: OAuth {unset, set} × static password {unset, set} × credential {none, right token, wrong token, cookie signed with other keys, garbage cookie, well-signed cookie expiring in 1 h, expired 1 s ago, expired 30 days ago} × endpoint {/immediate, /async, /cached/{permalink} of an authorised result}; oracle: with a password / OAuth configured only the right password / right token / unexpired well-signed session obtains data, and valid callers are served; non-trivial = request that must be refused",
+		ID:          "C19",
+		Level:       "exploration",
+		NoThreads:   true,
+		Rule:        "the whole request lattice. RPC over real gRPC on 127.0.0.1: server password {unset, set} × client credential {none, wrong, right, proper prefix, right + 1 char} × endpoint {Query (rows), Follow (WAL entries), remote-query handler registration followed by a leader query (query text; forged row injection)}; web via web.Configure on httptest with known hash/block keys: OAuth {unset, set} × static password {unset, set} × credential {none, right token, wrong token, cookie signed with other keys, garbage cookie, well-signed cookie expiring in 1 h, expired 1 s ago, expired 30 days ago} × endpoint {/immediate, /async, /cached/{permalink} of an authorised result}; oracle: with a password / OAuth configured only the right password / right token / unexpired well-signed session obtains data, and valid callers are served; non-trivial = request that must be refused",
 		Assumptions: []string{"GitHub org verification needs api.github.com: offline it always fails, so only its fail-closed direction is exercised", "a well-signed unexpired session cookie counts as verified (it is only issued after verification)"},
 		Shards:      func(tier string) int { return 4 },
 		Budget:      func(tier string) time.Duration { return 15 * time.Minute },
